@@ -129,6 +129,32 @@ Definition ops_codec (op : string) (args0 : list string) : option string :=
             | None => None end
         | None => None end
     | _ => None end
+  else if String.eqb op "dec_rctbase" then
+    (* RctSigBase::consensus_decode(r, inputs, outputs), a public function with caller-supplied counts *)
+    match args with
+    | [i; o; h] =>
+        match parse_N i, parse_N o, parse_hex h with
+        | Some i, Some o, Some b =>
+            Some (match dec_rct_base i o b with
+                  | (Ok a, r) => join_sp ("OK" :: show_N (lenN b - lenN r) :: show_hex (enc_rct_base a) :: sh_rct_base a)
+                  | (Err _, _) => "ERR" | (Panic, _) => "PANIC" end)
+        | _, _, _ => None end
+    | _ => None end
+  else if String.eqb op "dec_rctprunable" then
+    (* RctSigPrunable::consensus_decode(r, rct_type, inputs, outputs, mixin); Null returns None without reading *)
+    match args with
+    | [t; i; o; m; h] =>
+        match parse_N t, parse_N i, parse_N o, parse_N m, parse_hex h with
+        | Some t, Some i, Some o, Some m, Some b =>
+            match rct_type_of_tag t with
+            | Some RNull => Some "OK 0 - none"
+            | Some ty =>
+                Some (match dec_rct_prunable sz ty i o m b with
+                      | (Ok a, r) => join_sp ("OK" :: show_N (lenN b - lenN r) :: show_hex (enc_rct_prunable a ty) :: sh_rct_prunable a)
+                      | (Err _, _) => "ERR" | (Panic, _) => "PANIC" end)
+            | None => None end
+        | _, _, _, _, _ => None end
+    | _ => None end
   else if String.eqb op "spec" then
     (* MODEL-ONLY: the Monero field-list layout of Spec/Wire.v for a description (oracle of C03) *)
     match args with
